@@ -14,7 +14,7 @@ def run(tier, seed, verdict):
     runs = [mr.ModelRun("MC_C12_quick.cfg" if quick else "MC_C12.cfg", seed, probes=("reopen", "free_name"),
                         name_pools=[0, 1, 2, 4], accept=refused_only, stride=1 if quick else 2),
             mr.ModelRun("MC_C12_free.cfg", seed + 1, probes=("free_name",), name_pools=[0, 2, 4],
-                        accept=refused_only, stride=4 if quick else 1)]
+                        accept=refused_only, stride=10 if quick else 1)]
     level, cov, assumptions = run_property(
         "C12", verdict, runs,
         require_actions=("Create:refused:DuplicateName", "CreateBad:refused:EmptyName", "CreateBad:refused:SlashName",
